@@ -2246,13 +2246,13 @@ def stage_mci_glr(work, tier, seed):
     """TLC explores GLRRuntime over the real dumped LALR_RN tables for every token
     string up to MAXLEN (MCI_GLR)."""
     tab = get(work, "tables", tier, seed)
-    maxlen = 4 if tier == "quick" else 6
+    maxlen = 4 if tier == "quick" else 5
     cases = []
     gtext = {}
     # the exploration visits every token string up to maxlen: about nterm^maxlen states per
     # table, each a whole GLR frontier.  A budget on that estimate keeps the stage within
     # minutes: curated and structured grammars first, then a seeded sample of the others.
-    budget = 400000 if tier == "quick" else 600000
+    budget = 400000 if tier == "quick" else 500000
     cand = [c for c in corpus(tier, seed)
             if "meta" not in c[2] and len(c[1]["terms"]) <= (3 if tier == "quick" else 4)
             and tab["nodis"].get("%s|rn" % c[0]) is not None]
